@@ -483,6 +483,13 @@ class MetaComposer(Composer):
             composer_config = copy.deepcopy(composer.config)
             deep_merge(composer_config, config)
             new = func(composer_config)
+            if method in ('generate_processes', 'generate_steps'):
+                # the schema overrides the composer was configured with
+                # ('_schema'), as its own generate() applies them
+                _override_schemas({
+                    key: override
+                    for key, override in composer.schema_override.items()
+                    if key in new}, new)
             if set(combined.keys()) & set(new.keys()):
                 raise ValueError(
                     f"{set(combined.keys())} and "
